@@ -48,24 +48,22 @@ fn merge_binary_expression(
   outer_const: i32,
 ) -> Option<BinaryExpression> {
   match outer_operator {
+    // (x + c1) + c2 is x + (c1 + c2), and likewise for *, on every target only if the merged
+    // constant is representable: the TypeScript output computes without wrapping around.
     BinaryOperator::PLUS => {
-      if inner.operator == BinaryOperator::PLUS {
-        Some(BinaryExpression {
-          operator: BinaryOperator::PLUS,
-          e1: inner.e1,
-          e2: inner.e2.wrapping_add(outer_const),
-        })
+      if inner.operator == BinaryOperator::PLUS
+        && let Some(merged_const) = inner.e2.checked_add(outer_const)
+      {
+        Some(BinaryExpression { operator: BinaryOperator::PLUS, e1: inner.e1, e2: merged_const })
       } else {
         None
       }
     }
     BinaryOperator::MUL => {
-      if inner.operator == BinaryOperator::MUL {
-        Some(BinaryExpression {
-          operator: BinaryOperator::MUL,
-          e1: inner.e1,
-          e2: inner.e2.wrapping_mul(outer_const),
-        })
+      if inner.operator == BinaryOperator::MUL
+        && let Some(merged_const) = inner.e2.checked_mul(outer_const)
+      {
+        Some(BinaryExpression { operator: BinaryOperator::MUL, e1: inner.e1, e2: merged_const })
       } else {
         None
       }
